@@ -52,13 +52,25 @@ def implies(a, b):
 
 
 def base_env():
-    env = {'implies': implies, 'sext': lambda a, b: a == b, 'typed': lambda x, t: x, 'fresh': lambda x: True}
+    env = {'dictview': lambda d: {k: tuple(v) for k, v in d.items()},
+           'ints': lambda: list(range(-3, 48)) + list(range(0xff000000 - 2, 0xff000000 + 4)),
+           'implies': implies, 'sext': lambda a, b: a == b, 'typed': lambda x, t: x, 'fresh': lambda x: True}
     env.update(contracts.SPECFNS)
     env.update(contracts.SPECPREDS)
     from . import ntrace
     ntrace.install()
     env.update(ntrace.accessors())
     return env
+
+
+class _Unavailable:
+    """value of an old(...) expression that could not be evaluated in the pre-state"""
+    def __init__(self, exc):
+        self.exc = exc
+    def _fail(self, *a, **k):
+        raise self.exc
+    __eq__ = __ne__ = __lt__ = __le__ = __gt__ = __ge__ = __add__ = __radd__ = __sub__ = __rsub__ = __getitem__ = __len__ = __bool__ = __contains__ = __iter__ = _fail
+    __hash__ = None
 
 
 class Violation(Exception):
@@ -114,7 +126,10 @@ def check_call(c, fn, args, kwargs=None):
         code, olds = _compile(text)
         oldvals = {}
         for i, o in enumerate(olds):
-            oldvals['__old_%d' % i] = snapshot(eval(o, env))
+            try:
+                oldvals['__old_%d' % i] = snapshot(eval(o, env))
+            except Exception as e:      # only an error if the postcondition actually uses it
+                oldvals['__old_%d' % i] = _Unavailable(e)
         ens.append((name, text, code, oldvals))
     whens = []
     for exc, when, exact in c.raises_l:
